@@ -13,6 +13,7 @@ ATTACH = {
     'kani_sigmod.rs': 'src/rpm/signature/mod.rs',
     'kani_constants.rs': 'src/constants.rs',
     'kani_package.rs': 'src/rpm/package.rs',
+    'kani_builder.rs': 'src/rpm/builder.rs',
 }
 
 MODPATH = {
@@ -25,6 +26,7 @@ MODPATH = {
     'kani_sigmod.rs': 'rpm::signature',
     'kani_constants.rs': 'constants',
     'kani_package.rs': 'rpm::package',
+    'kani_builder.rs': 'rpm::builder',
 }
 
 
@@ -39,6 +41,7 @@ def H(name, module, props, bounded=None, tier='quick', timeout=300, doc='', carg
 
 
 HARNESSES = [
+    H('k_path_semantics', 'kani_builder.rs', ['C06'], bounded='4 fixed paths (/a, /x/a, ./a, ./x/a)', timeout=900, doc='sanity link for A-PATH-SEM: std::path parent / file_name / strip_prefix(".") on clean destinations'),
     H('k_lead_fields', 'kani_lead.rs', ['C01', 'C04'], timeout=900, doc='all 96-byte leads: accepted iff magic ed ab ee db; every field is the corresponding input bytes; no panic (try_into().unwrap())'),
     H('k_lead_new', 'kani_lead.rs', ['C09'], bounded='name length <= 3 and 70 (two concrete lengths around the 65-byte cut)', timeout=600, doc='Lead::new: magic, major 3, type 0, os 1, signature type 5, NUL-terminated name'),
     # ---- C01 / C14 / C04 leaves on header.rs ------------------------------------------------
